@@ -415,9 +415,23 @@ package metrics
 // segment must not delete it — the other segments' appended entries would be
 // gone and, since only a new organisation re-creates it, logging would stop —
 // except at the forced rotation of a shutdown, when every segment is rotated.
+// C13 (one organisation's data never shows in another's answers): the
+// directory of a metrics segment is .../ts/<shard>/<suffix>/ — no organisation
+// in it, and shard ids are the same in every organisation — so only the shared
+// per-shard suffix counter keeps the segments of two organisations apart: the
+// suffix a rotated segment continues under is one that counter has just issued.
+// Ghosts sufIssued / sufValue: GetNextSuffix returned this value on this path.
+//@ ghostdecl sufIssued int
+//@ ghostdecl sufValue uint64
 //@ func (*MetricsSegment).rotateSegment
-//@   props C10
+//@   props C10 C13
 //@   assumecalleerequires
+//@   ghostinit ghost(0, "sufIssued") == 0
+//@   site callret suffix.GetNextSuffix #1:
+//@     ghostset ghost(0, "sufIssued") = ite(result1 == nil, 1, 0)
+//@     ghostset ghost(0, "sufValue") = result0
+//@   site store ms.Suffix #2:
+//@     assert [a-rotated-segment-continues-under-a-suffix-the-shared-counter-just-issued] ghost(0, "sufIssued") == 1 && value == ghost(0, "sufValue")
 //@   site call metricsMEntryWalState.wal.DeleteWAL #1:
 //@     assert [the-shared-metadata-wal-is-deleted-only-at-a-forced-rotation] forceRotate
 //@   site store metricsMEntryWalState.wal #1:
